@@ -181,9 +181,7 @@ def build():
         "not_applicable": na,
         "notes": "All checks: ./check <ID> quick|thorough ; replay: ./check <ID> --replay <file>. VERIF_SEED selects the embedding (base instant, labels, partition order), never which cases run. Known findings: /verif/known_findings.json.",
     }
-    if not na:
-        del m["not_applicable"]
-    return m
+    return m  # "not_applicable" stays in the file even when empty: every listed property is claimed
 
 
 if __name__ == "__main__":
